@@ -988,11 +988,15 @@ def _foreign_input_ok(ctx, env):
             subs = FW.read_cmap(env["orig"]["cmap"])
             m12 = next((m for k, m in subs.items() if k[2] == 12), None)
             font = hb.Font(hb.Face(hb.Blob(env["src"])))
-            ft = FT(env["src"])
+            try:
+                ft = FT(env["src"])
+            except Exception:
+                ft = None        # FreeType cannot open this host at all (e.g. CFF FDSelect format 4)
+                ctx.note("freetype-cannot-open-host")
             for c, g in sorted(m12.items()):
-                if font.get_nominal_glyph(c) != g or ft.char_index(c) != g:
+                if font.get_nominal_glyph(c) != g or (ft is not None and ft.char_index(c) != g):
                     ctx.inconclusive("foreign cmap: oracles disagree on the input at U+%04X (reader %d, HarfBuzz %r, FreeType %r)"
-                                     % (c, g, font.get_nominal_glyph(c), ft.char_index(c)))
+                                     % (c, g, font.get_nominal_glyph(c), ft.char_index(c) if ft else None))
                     return False
             m4 = next((m for k, m in subs.items() if k[2] == 4), None)
             if m4 != {c: g for c, g in m12.items() if c < 0x10000}:
